@@ -211,7 +211,19 @@ fn vk_c09_kind_table_assoc_array_forms() { kind_table_step_w(5, 2, 4); }
 #[kani::unwind(5)]
 fn vk_c09_kind_table_assoc_element_forms() { kind_table_step_w(5, 4, 6); }
 
-//@proof {'props': ['C09'], 'tier': 'thorough', 'timeout': 900, 'uses': ['variables_file'], 'bounds': 'declared-but-unset variable of each kind; assignment form symbolic', 'desc': 'assignment-kind table from declared-but-unset variables (declare x / declare -a x / declare -A x)'}
+// (one proof per kind: with the kind symbolic the query exceeded the memory cap)
+//@proof {'props': ['C09'], 'tier': 'thorough', 'timeout': 1800, 'uses': ['variables_file'], 'bounds': 'declared-but-unset untyped variable; assignment form symbolic', 'desc': 'assignment-kind table from declared-but-unset variables (declare x / declare -a x / declare -A x)'}
 #[kani::proof]
 #[kani::unwind(5)]
-fn vk_c09_kind_table_unset_kinds() { let k: u8 = any_below(3); kind_table_step(k); }
+fn vk_c09_kind_table_unset_untyped() { kind_table_step(0); }
+
+//@proof {'props': ['C09'], 'tier': 'thorough', 'timeout': 1800, 'uses': ['variables_file'], 'bounds': 'declared-but-unset indexed-array variable; assignment form symbolic', 'desc': 'assignment-kind table from declared-but-unset variables (declare x / declare -a x / declare -A x)'}
+#[kani::proof]
+#[kani::unwind(5)]
+fn vk_c09_kind_table_unset_indexed() { kind_table_step(1); }
+
+//@proof {'props': ['C09'], 'tier': 'thorough', 'timeout': 1800, 'uses': ['variables_file'], 'bounds': 'declared-but-unset associative-array variable; assignment form symbolic', 'desc': 'assignment-kind table from declared-but-unset variables (declare x / declare -a x / declare -A x)'}
+#[kani::proof]
+#[kani::unwind(5)]
+fn vk_c09_kind_table_unset_assoc() { kind_table_step(2); }
+
